@@ -126,6 +126,7 @@ type Sched struct {
 	// task sleeps that many virtual milliseconds before it parks (fault: stalled task)
 	NextStall int
 	Stalls    int
+	StallMs   int // virtual milliseconds lost to stalls so far
 }
 
 // Failure is a violation-grade runtime event (panic, self-deadlock ...).
@@ -203,6 +204,11 @@ func (s *Sched) park(t *Task, pred func() bool, site int) {
 }
 
 // Yield is inserted in front of every statement of instrumented code.
+// YieldT / YieldF are scheduling points inside boolean expressions (between the operands of && / ||,
+// between an if statement's init and its condition); they do not change the value of the expression.
+func YieldT(site int) bool { Yield(site); return true }
+func YieldF(site int) bool { Yield(site); return false }
+
 func Yield(site int) {
 	s := active.Load()
 	if s == nil {
@@ -264,6 +270,7 @@ func Yield(site int) {
 		}
 		if stall > 0 {
 			s.Stalls++
+			s.StallMs += stall
 			s.mu.Unlock()
 			// durably blocked inside the bubble: the scheduler runs the other tasks and, when none is
 			// runnable, lets the clock advance; afterwards this goroutine is no longer the baton holder
